@@ -207,13 +207,24 @@ def run_case(case, stats):
                     "eager-multi-pass",
                     f"execute() started {n} iterations of leaf {leaves[i][0]} but only {occ[i][0] + occ[i][2]} occurrence(s) sit below sort/dedup/materialize; {ctx}",
                 )
-        for k in range(1, iters + 1):
+        # a first, *partial* iteration of the result (the caller peeks at the first row and abandons the iterator): the
+        # result object must not remember anything from it
+        peeks = int(codec.digest(case)[:2], 16) % 3 == 0
+        if peeks:
+            try:
+                it = iter(result)
+                next(it, None)
+                del it
+            except Exception as e:
+                raise Violation("iterate-raised", f"peeking at the first row: {type(e).__name__}: {e}; {ctx}", exc=e)
+            stats.c["class:peeked-first"] += 1
+        for k in range(1 + peeks, iters + 1 + peeks):
             try:
                 got = [dict(r) for r in result]
             except Exception as e:
                 raise Violation("iterate-raised", f"{type(e).__name__}: {e}; {ctx}", exc=e)
             if got != expected:
-                raise Violation("rows-differ", f"iteration #{k}: expected {show_rows(expected)} got {show_rows(got)}; {ctx}")
+                raise Violation("rows-differ", f"iteration #{k}{' (after a partial first iteration)' if peeks else ''}: expected {show_rows(expected)} got {show_rows(got)}; {ctx}")
             now = counters()
             for i, n in now.items():
                 bound = occ[i][0] + occ[i][2] + k * (occ[i][1] + occ[i][2])
